@@ -54,7 +54,10 @@ class Prop(PropBase):
         pb, np, u = self.pb, self.np, self.u
         g = np.random.default_rng(case["seed"])
         shape = (case["N"],) + sigs.sample_shape(case["cls"], case["n"]) + ((case["extra"],) if case["extra"] else ())
-        x = (g.standard_normal(shape) + 1j * g.standard_normal(shape)).astype({"c8": "c8", "c16": "c16"}[case["dtype"]])
+        x = (g.standard_normal(shape) + 1j * g.standard_normal(shape))
+        if case["seed"] % 5 == 0:
+            x = x * [1e-9, 1e-12][case["seed"] % 2]          # weak signals: the filter is linear (no absolute tolerances)
+        x = x.astype({"c8": "c8", "c16": "c16"}[case["dtype"]])
         if case["dask"]:
             import dask.array as da
             x = da.from_array(x, chunks=(-1,) + (1,) * (len(shape) - 1))
